@@ -359,6 +359,8 @@ def r174(repo, ctx):
                     return env[e.id]
                 raise AnalysisError(f'free name {e.id}')
             if isinstance(e, ast.Constant):
+                if isinstance(e.value, bool) or not isinstance(e.value, (int, float)):
+                    raise AnalysisError(f'not translatable: literal {e.value!r}')
                 return sp.Integer(e.value) if isinstance(e.value, int) else sp.Rational(repr(e.value))
             if isinstance(e, ast.Subscript):
                 return tr(e.value)      # broadcasting index [:, np.newaxis]
@@ -393,6 +395,8 @@ def r174(repo, ctx):
         res = None
         for st in U.body_without_docstring(f):
             if isinstance(st, ast.Assign) and isinstance(st.targets[0], ast.Name):
+                if U.dead_callfree_store(f, st):
+                    continue
                 env[st.targets[0].id] = tr(st.value)
             elif isinstance(st, ast.Return):
                 res = tr(st.value)
